@@ -61,17 +61,25 @@ def translate():
     applied = 'first' if r.func.id == names[0] else 'second'
     sc = _fn(w, 'setup_context')
     body = [s for s in sc.body if not (isinstance(s, ast.Expr) and isinstance(s.value, ast.Constant))]
-    if not (len(body) == 2 and isinstance(body[0], ast.Assign) and isinstance(body[0].targets[0], ast.Tuple) and ast.unparse(body[0].value) == 'inputs'
-            and ast.unparse(body[1]) == 'return output'):
-        raise Unsupported('setup_context is not `ctx.a, ctx.b, x = inputs; return output`')
+    if not (len(body) == 3 and isinstance(body[0], ast.Assign) and isinstance(body[0].targets[0], ast.Tuple) and ast.unparse(body[0].value) == 'inputs'
+            and ast.unparse(body[2]) == 'return output'):
+        raise Unsupported('setup_context is not `ctx.a, ctx.b, x = inputs; ctx.x_is_complex = x.is_complex(); return output`')
     tg = [ast.unparse(t) for t in body[0].targets[0].elts]
     if len(tg) != 3 or not tg[0].startswith('ctx.') or not tg[1].startswith('ctx.'):
         raise Unsupported(f'setup_context stores {tg}')
+    if ast.unparse(body[1]) != f'ctx.x_is_complex = {tg[2]}.is_complex()':
+        raise Unsupported(f'setup_context: `{ast.unparse(body[1])[:80]}` (the model records whether the input is complex)')
     ctxmap = {tg[0]: 'first', tg[1]: 'second'}
-    bw = _single_return(_fn(w, 'backward'))
-    if not (isinstance(bw, ast.Tuple) and len(bw.elts) == 3 and all(isinstance(x, ast.Constant) and x.value is None for x in bw.elts[:2])):
-        raise Unsupported('backward does not return (None, None, grad)')
-    vjp = _apply_args(bw.elts[2], ctxmap, ('grad_output[0]',))
+    # backward: grad = apply(.., .., grad_output[0]); real part for a real input; return None, None, grad
+    bwf = _fn(w, 'backward')
+    bbody = [s for s in bwf.body if not (isinstance(s, ast.Expr) and isinstance(s.value, ast.Constant))]
+    if not (len(bbody) == 3 and isinstance(bbody[0], ast.Assign) and ast.unparse(bbody[0].targets[0]) == 'grad'):
+        raise Unsupported('backward is not `grad = apply(...); <real part for real input>; return None, None, grad`')
+    vjp = _apply_args(bbody[0].value, ctxmap, ('grad_output[0]',))
+    if ast.unparse(bbody[1]) != 'if not ctx.x_is_complex and grad.is_complex():\n    grad = grad.real':
+        raise Unsupported(f'backward, projection for real inputs: `{ast.unparse(bbody[1])[:100]}`')
+    if ast.unparse(bbody[2]) != 'return (None, None, grad)':
+        raise Unsupported(f'backward returns `{ast.unparse(bbody[2])[:60]}`')
     jvp = _apply_args(_single_return(_fn(w, 'jvp')), ctxmap, ('grad_inputs[-1]', 'grad_inputs[2]'))
 
     def pair(p):
@@ -114,7 +122,8 @@ Definition gen_available := true.
 Section GenAutograd.
   Variable R : StarRing.
   Notation vec := (nat -> R).
-  (* node W(f, g): forward applies {app}; backward is the node W{pair(vjp)}; jvp is the node W{pair(jvp)} *)
+  (* node W(f, g): forward applies {app}; backward is the node W{pair(vjp)} (followed by the real part iff the input was real and the gradient is
+     complex: C05_real_input_gradient); jvp is the node W{pair(jvp)} *)
   Definition gen_node_fn (f g : vec -> vec) : vec -> vec := {app}.
   Definition gen_vjp_node (f g : vec -> vec) : (vec -> vec) * (vec -> vec) := {pair(vjp)}.
   Definition gen_jvp_node (f g : vec -> vec) : (vec -> vec) * (vec -> vec) := {pair(jvp)}.
